@@ -22,9 +22,13 @@ theorem upon_error_runs_iff_error (f : Fn) (o : Outcome) :
     (UnKind.uponError f).map o = (match o with | .error e => f.app e | o => o) := by
   cases o <;> rfl
 
-theorem upon_done_runs_iff_done (v : Nat) (o : Outcome) :
-    (UnKind.uponDone v).map o = (match o with | .done => .value v | o => o) := by
+theorem upon_done_runs_iff_done (f : Fn) (o : Outcome) :
+    (UnKind.uponDone f).map o = (match o with | .done => f.app 0 | o => o) := by
   cases o <;> rfl
+
+/-- upon_done with a callable that returns v / that throws e -/
+theorem upon_done_value (v : Nat) : (UnKind.uponDone (.const v)).map .done = .value v := rfl
+theorem upon_done_throw_becomes_set_error (e : Nat) : (UnKind.uponDone (.throwAlways e)).map .done = .error e := rfl
 
 /-- a throwing callable becomes set_error -/
 theorem throw_becomes_set_error (e v : Nat) : (UnKind.thenF (.throwAlways e)).map (.value v) = .error e := rfl
